@@ -69,7 +69,8 @@ def build_tools():
         rc, out = sh(['go', 'build', '-o', os.path.join(BIN, 'gen_tables'), '.'], cwd=os.path.join(ROOT, 'tools/gen_tables'), env=GOENV, timeout=600)
         if rc:
             msgs.append('gen_tables build failed: ' + out[-2000:])
-    if not os.path.exists(os.path.join(COQ, 'Makefile')):
+    mk, cp = os.path.join(COQ, 'Makefile'), os.path.join(COQ, '_CoqProject')
+    if not os.path.exists(mk) or os.path.getmtime(mk) < os.path.getmtime(cp):
         sh(['coq_makefile', '-f', '_CoqProject', '-o', 'Makefile'], cwd=COQ, timeout=120)
     return msgs
 
